@@ -359,4 +359,53 @@ theorem analyseAll_total (repos : List RepoIn) (hT : ∀ r ∈ repos, r.hist.Top
             · exact hacc.good a h1
             · simp only [List.mem_singleton] at h1; subst h1; exact hgood }
 
+/-! ### what `analyse` returns, in terms of `rgraph` and `registrations` -/
+
+/-- the component graphs handed to the repository `r` : the graphs of the repositories analysed before it that it
+names as components (the expression of `analyseAll`) -/
+def compsOf (acc : List Analysed) (r : RepoIn) : List (Nat × Graph Bumps) :=
+  (acc.filter fun a => r.deps.contains a.id).map fun a => (a.id, a.graph)
+
+/-- the run of `analyseAll` step by step: every repository of the order list gets the graph `rgraph` computes for its
+history with the plug of the components analysed before it, and contributes the registrations of that graph -/
+theorem analyseAll_steps (repos : List RepoIn) : ∀ (is : List Nat) (acc : List Analysed) (regs : List Reg)
+    (acc' : List Analysed) (regs' : List Reg), analyseAll repos is acc regs = .ok (acc', regs') →
+    ∃ steps : List (Analysed × List Reg), acc' = acc ++ steps.map (·.1) ∧ regs' = regs ++ steps.flatMap (·.2) ∧
+      steps.map (·.1.id) = is ∧
+      ∀ k a rs, steps[k]? = some (a, rs) → ∃ rr, repos.find? (fun x => x.id == a.id) = some rr ∧
+        rgraph rr.hist (mkPlug (compsOf (acc ++ (steps.take k).map (·.1)) rr)) = .ok a.graph ∧
+        registrations a.id (compsOf (acc ++ (steps.take k).map (·.1)) rr) a.graph = .ok rs := by
+  intro is
+  induction is with
+  | nil =>
+    intro acc regs acc' regs' h
+    simp only [analyseAll] at h
+    cases h
+    exact ⟨[], by simp, by simp, rfl, by intro k a rs hk; simp at hk⟩
+  | cons i is ih =>
+    intro acc regs acc' regs' h
+    simp only [analyseAll] at h
+    split at h
+    · cases h
+    · rename_i rr hfind
+      split at h
+      · cases h
+      · split at h
+        · cases h
+        · rename_i g hg
+          split at h
+          · cases h
+          · rename_i rs hrs
+            obtain ⟨steps, h1, h2, h3, h4⟩ := ih _ _ _ _ h
+            refine ⟨(⟨i, g⟩, rs) :: steps, by rw [h1]; simp, by rw [h2]; simp, by simp [h3], ?_⟩
+            intro k a rs' hk
+            cases k with
+            | zero =>
+              simp only [List.getElem?_cons_zero, Option.some.injEq, Prod.mk.injEq] at hk
+              obtain ⟨rfl, rfl⟩ := hk
+              exact ⟨rr, hfind, by simpa [compsOf] using hg, by simpa [compsOf] using hrs⟩
+            | succ k =>
+              obtain ⟨rr', hf', hg', hrs'⟩ := h4 k a rs' (by simpa using hk)
+              exact ⟨rr', hf', by simpa [List.append_assoc] using hg', by simpa [List.append_assoc] using hrs'⟩
+
 end Ghist
